@@ -28,6 +28,9 @@ pub enum Call {
     Forward { theta: f64, phi: f64, face: u8 },
     /// internal: DodecahedronProjection::inverse(Face{x, y}, face)
     Inverse { x: f64, y: f64, face: u8 },
+    /// internal: the generic PolyhedralProjection::inverse with an octant triangle (not one of the dodecahedron's), as the
+    /// repository's own tests use it
+    GenericInverse { x: f64, y: f64 },
 }
 
 #[derive(Clone, Debug, PartialEq)]
@@ -92,6 +95,7 @@ impl Call {
             Call::Res0 => "get_res0_cells",
             Call::Forward { .. } => "forward",
             Call::Inverse { .. } => "inverse",
+            Call::GenericInverse { .. } => "generic_inverse",
         }
     }
 
@@ -112,6 +116,7 @@ impl Call {
             Call::Res0 => "get_res0_cells".to_string(),
             Call::Forward { theta, phi, face } => format!("forward {} {} {face}", fb(*theta), fb(*phi)),
             Call::Inverse { x, y, face } => format!("inverse {} {} {face}", fb(*x), fb(*y)),
+            Call::GenericInverse { x, y } => format!("generic_inverse {} {}", fb(*x), fb(*y)),
         }
     }
 
@@ -137,6 +142,7 @@ impl Call {
             "get_res0_cells" => Call::Res0,
             "forward" => Call::Forward { theta: parse_fb(t.get(1)?)?, phi: parse_fb(t.get(2)?)?, face: t.get(3)?.parse().ok()? },
             "inverse" => Call::Inverse { x: parse_fb(t.get(1)?)?, y: parse_fb(t.get(2)?)?, face: t.get(3)?.parse().ok()? },
+            "generic_inverse" => Call::GenericInverse { x: parse_fb(t.get(1)?)?, y: parse_fb(t.get(2)?)? },
             _ => return None,
         })
     }
@@ -162,6 +168,13 @@ impl Call {
                 .forward(Spherical::new(Radians::new_unchecked(*theta), Radians::new_unchecked(*phi)), *face)
                 .map(|f| vec![f.x().to_bits(), f.y().to_bits()]),
             Call::Inverse { x, y, face } => DodecahedronProjection::get_thread_local().inverse(Face::new(*x, *y), *face).map(|s| vec![s.theta().get().to_bits(), s.phi().get().to_bits()]),
+            Call::GenericInverse { x, y } => {
+                use a5::coordinate_systems::{Cartesian, FaceTriangle, SphericalTriangle};
+                let ft = FaceTriangle::new(Face::new(0.0, 0.0), Face::new(1.0, 0.0), Face::new(0.0, 1.0));
+                let st = SphericalTriangle::new(Cartesian::new(1.0, 0.0, 0.0), Cartesian::new(0.0, 1.0, 0.0), Cartesian::new(0.0, 0.0, 1.0));
+                let c = a5::projections::polyhedral::PolyhedralProjection::new().inverse(Face::new(*x, *y), ft, st);
+                Ok(vec![c.x().to_bits(), c.y().to_bits(), c.z().to_bits()])
+            }
         });
         match r {
             Ok(Ok(v)) => Outcome::Ok(v),
@@ -468,7 +481,7 @@ pub fn validate(call: &Call, out: &Outcome) -> Vec<(&'static str, String)> {
                 bad.push(("C14.invalid_result", format!("get_res0_cells returned {} ids", v.len())));
             }
         }
-        Call::HexToU64(_) | Call::U64ToHex(_) | Call::Forward { .. } | Call::Inverse { .. } => {}
+        Call::HexToU64(_) | Call::U64ToHex(_) | Call::Forward { .. } | Call::Inverse { .. } | Call::GenericInverse { .. } => {}
     }
     bad
 }
